@@ -541,6 +541,16 @@ def run_one(ctx, facts, cfgname):
             fe = [a for k, a in ctx.facts.adts.items() if k.endswith("for watchexec_events::serde_formats::%s>::deserialize::__Field" % st)]
             ok8 = len(fe) == 1 and "__ignore" in [v["name"] for v in fe[0]["variants"]]
             uk = [f.def_ for f in ctx.facts.fns_matching(r"serde_formats::%s>::deserialize::" % st) for _, t in f.calls() if "unknown_field" in (t.callee.path or "")]
+            # what the writer may leave out the reader must not require: names handed to skip_field in the derived Serialize vs names handed to
+            # missing_field in the derived Deserialize
+            skipped = sorted({t.args[-1].const_str() for f in ctx.facts.fns_matching(r"serde_formats::%s>::serialize$" % st) for _, t in f.calls()
+                              if (t.callee.def_ or "").endswith("skip_field") and t.args and t.args[-1].const_str()})
+            required = sorted({t.args[-1].const_str() for f in ctx.facts.fns_matching(r"serde_formats::%s>::deserialize::" % st) for _, t in f.calls()
+                               if (t.callee.def_ or "").split("::<")[0].endswith("missing_field") and t.args and t.args[-1].const_str()})
+            ctx.floor("R16.8", "fields %s may omit when writing" % st, len(skipped), 2)
+            both = sorted(set(skipped) & set(required))
+            ctx.require(not both, "R16.8", "omitted-fields-default:" + st, "every field %s's writer may omit (%s) is optional for its reader" % (st, ", ".join(skipped)), detail="required: %s" % required,
+                        fail="%s omits `%s` when writing (skip_serializing_if) but requires it when reading: an event whose %s is empty serialises to a document that does not parse back" % (st, "/".join(both), "/".join(both)))
             ctx.require(ok8 and not uk, "R16.8", "ignores-unknown-fields:" + st, "%s's deserialiser ignores unknown fields" % st, detail="%s %s" % ([v["name"] for v in fe[0]["variants"]][-2:] if fe else None, uk[:1]),
                         fail="%s rejects objects with unknown fields (deny_unknown_fields): one unexpected field in one tag makes the whole event fail to parse instead of yielding that tag or Tag::Unknown" % st)
     except Skip:
